@@ -188,6 +188,18 @@ unsafe extern "C" fn fv_drop(w: FWords) {
         N_STALE.fetch_add(1, Ordering::SeqCst);
     }
 }
+/// the by-reference waker as the plugin sees it (same layout as FRef, raw result type)
+#[repr(C)]
+struct FRefRaw {
+    raw: *const FWords,
+    clone: unsafe extern "C" fn(*const ()) -> FOwnedRaw,
+    wake_by_ref: unsafe extern "C" fn(*const ()),
+}
+impl FVtbl {
+    fn clone_raw(&self) -> unsafe extern "C" fn(FWords) -> FOwnedRaw {
+        unsafe { std::mem::transmute(self.clone) }
+    }
+}
 static F_VTBL: FVtbl = FVtbl { clone: fv_clone, wake: fv_wake, wake_by_ref: fv_wake_by_ref, drop: fv_drop };
 unsafe extern "C" fn fr_clone(p: *const ()) -> FOwned {
     fv_clone(*(p as *const FWords))
@@ -403,6 +415,19 @@ struct State {
     in_poll: bool,
     poll_entry: i64,
     model_wakes: u64,
+    /// owned wakers held by a *foreign plugin*: it got the by-reference waker cglue builds from
+    /// the caller's waker, and uses it purely through the published layout — `clone` of the
+    /// by-reference waker, then the owned waker's vtable (clone / wake / wake_by_ref / drop)
+    fplugin: Vec<Option<FOwnedRaw>>,
+    fplugin_wakes: u64,
+}
+
+/// {raw words, vtable pointer} as the plugin sees it; the vtable is cglue's, read by layout
+#[repr(C)]
+#[derive(Clone, Copy)]
+struct FOwnedRaw {
+    waker: FWords,
+    vtable: *const FVtbl,
 }
 
 fn parse_wop(step: &Step) -> Option<WOp> {
@@ -498,6 +523,54 @@ fn apply(st: &mut State, step: &Step, counts: &mut Vec<&'static str>) -> Result<
         return Ok(format!("outside {:?}", op));
     }
     match step.op.as_str() {
+        "PBorrowClone" | "PClone" | "PWake" | "PWakeRef" | "PDrop" => {
+            // the foreign plugin's side of the waker protocol, by layout only (not under Miri: the
+            // mirror structures are not the types the function pointers are declared with)
+            if cfg!(miri) || st.static_caller || st.node_caller {
+                return Ok(format!("{} noop", step.op));
+            }
+            if st.in_poll {
+                do_poll(st, counts)?;
+            }
+            let h = step.arg(0).rem_euclid(NH as i64) as usize;
+            let h2 = step.arg(1).rem_euclid(NH as i64) as usize;
+            unsafe {
+                match step.op.as_str() {
+                    "PBorrowClone" => {
+                        let Some(caller) = st.caller.as_ref() else { return Ok("PBorrowClone noop".into()) };
+                        if st.fplugin[h].is_some() {
+                            return Ok("PBorrowClone noop".into());
+                        }
+                        // what the generated caller-side code hands to the plugin's poll entry
+                        let cref = cglue::task::CRefWaker::from(caller);
+                        let view: &FRefRaw = &*(&cref as *const cglue::task::CRefWaker as *const FRefRaw);
+                        let owned = track(|| (view.clone)(view.raw as *const ()));
+                        st.fplugin[h] = Some(owned);
+                    }
+                    "PClone" => {
+                        let (Some(src), None) = (st.fplugin[h], st.fplugin[h2]) else { return Ok("PClone noop".into()) };
+                        let owned = track(|| ((*src.vtable).clone_raw())(src.waker));
+                        st.fplugin[h2] = Some(owned);
+                    }
+                    "PWake" => {
+                        let Some(src) = st.fplugin[h].take() else { return Ok("PWake noop".into()) };
+                        st.fplugin_wakes += 1;
+                        track(|| ((*src.vtable).wake)(src.waker));
+                    }
+                    "PWakeRef" => {
+                        let Some(src) = st.fplugin[h] else { return Ok("PWakeRef noop".into()) };
+                        st.fplugin_wakes += 1;
+                        track(|| ((*src.vtable).wake_by_ref)(src.waker));
+                    }
+                    _ => {
+                        let Some(src) = st.fplugin[h].take() else { return Ok("PDrop noop".into()) };
+                        track(|| ((*src.vtable).drop)(src.waker));
+                    }
+                }
+            }
+            counts.push("fault.foreign_plugin_uses_waker_by_layout");
+            Ok(format!("{} {}", step.op, h))
+        }
         "OnWake" => {
             // the caller's waker will, when next woken, operate on a retained foreign handle
             let h = step.arg(1).rem_euclid(NH as i64) as usize;
@@ -561,7 +634,7 @@ fn apply(st: &mut State, step: &Step, counts: &mut Vec<&'static str>) -> Result<
 fn check(st: &mut State, when: &str) -> VResult {
     let (wakes_done, live, lines) = {
         let mut sh = st.sh.lock().unwrap();
-        (sh.wakes_done, sh.handles.iter().filter(|h| h.is_some()).count() as i64, std::mem::take(&mut sh.log))
+        (sh.wakes_done + st.fplugin_wakes, sh.handles.iter().filter(|h| h.is_some()).count() as i64 + st.fplugin.iter().filter(|h| h.is_some()).count() as i64, std::mem::take(&mut sh.log))
     };
     let _ = lines;
     st.model_wakes = wakes_done;
@@ -612,7 +685,7 @@ fn state_hash(st: &State) -> u64 {
     h.0
 }
 
-const OPS: [&str; 11] = ["PollBegin", "PollEnd", "WBorrowWake", "WBorrowClone", "WClone", "WWake", "WWakeRef", "WDrop", "ObjDrop", "CallerDrop", "OnWake"];
+const OPS: [&str; 16] = ["PollBegin", "PollEnd", "WBorrowWake", "WBorrowClone", "WClone", "WWake", "WWakeRef", "WDrop", "ObjDrop", "CallerDrop", "OnWake", "PBorrowClone", "PClone", "PWake", "PWakeRef", "PDrop"];
 
 fn new_state(kind: i64, caller_kind: i64) -> State {
     let static_caller = caller_kind == 1;
@@ -639,7 +712,7 @@ fn new_state(kind: i64, caller_kind: i64) -> State {
     let sh = Arc::new(Mutex::new(Shared { pending: Vec::new(), handles: (0..NH).map(|_| None).collect(), wakes_done: 0, effective: 0, reentrant: 0, log: Vec::new(), ready: false, concurrent_clones: 0 }));
     *unsafe { &*wref }.pool.lock().unwrap() = Some(sh.clone());
     let obj = make_obj(kind, &sh);
-    State { sh, obj: Some(obj), w, wref, caller: Some(caller), drops, static_caller, node_caller, foreign_caller, _keep: keep, in_poll: false, poll_entry: 0, model_wakes: 0 }
+    State { sh, obj: Some(obj), w, wref, caller: Some(caller), drops, static_caller, node_caller, foreign_caller, _keep: keep, in_poll: false, poll_entry: 0, model_wakes: 0, fplugin: (0..NH).map(|_| None).collect(), fplugin_wakes: 0 }
 }
 
 impl Engine for WakerEngine {
@@ -654,7 +727,13 @@ impl Engine for WakerEngine {
         p.set("obj", rng.range(0, 2));
         p.set("caller_kind", [0, 0, 1, 2, 3, 3][rng.below(6) as usize]);
         let max_steps = if rng.chance(1, 2) { rng.range(3, 10) } else { rng.range(10, if thorough { 50 } else { 30 }) };
-        let mut w: Vec<u32> = vec![8, 8, 5, 12, 10, 8, 6, 10, 1, 1, 3];
+        let mut w: Vec<u32> = vec![8, 8, 5, 12, 10, 8, 6, 10, 1, 1, 3, 0, 0, 0, 0, 0];
+        if rng.chance(1, 3) {
+            // a foreign plugin takes part
+            for (i, x) in [6u32, 4, 3, 4, 3].iter().enumerate() {
+                w[11 + i] = *x;
+            }
+        }
         if rng.chance(1, 2) {
             w[10] = 0;
         }
@@ -672,9 +751,9 @@ impl Engine for WakerEngine {
             let h1 = rng.below(nh as u64) as i64;
             match op {
                 "PollBegin" => p.push(t, op, &[rng.range(0, 2), rng.chance(1, 4) as i64]),
-                "WClone" => p.push(t, op, &[h0, h1]),
+                "WClone" | "PClone" => p.push(t, op, &[h0, h1]),
                 "OnWake" => p.push(t, op, &[rng.range(0, 2), h0]),
-                "WBorrowClone" | "WWake" | "WWakeRef" | "WDrop" => p.push(t, op, &[h0]),
+                "WBorrowClone" | "WWake" | "WWakeRef" | "WDrop" | "PBorrowClone" | "PWake" | "PWakeRef" | "PDrop" => p.push(t, op, &[h0]),
                 _ => p.push(t, op, &[]),
             }
         }
@@ -756,6 +835,11 @@ impl Engine for WakerEngine {
                     1 => {
                         let hs: Vec<Waker> = st.sh.lock().unwrap().handles.iter_mut().filter_map(|h| h.take()).collect();
                         track(|| drop(hs));
+                        for h in st.fplugin.iter_mut() {
+                            if let Some(src) = h.take() {
+                                track(|| unsafe { ((*src.vtable).drop)(src.waker) });
+                            }
+                        }
                     }
                     _ => {
                         st.caller.take();
